@@ -82,7 +82,7 @@ Fixpoint nfol2 (n : nat) (r : rid) (K : re) : option re :=
         | HNotAt, [r1] => match re_of G MX n' r1 with Some (R1, _) => Some (Cat R1 Any) | None => None end
         | HStarPartial, [r1] => match re_of G MX n' r1 with Some (R1, _) => Some (Cat R1 (Cat (Star R1) K)) | None => None end
         | HPlus, [r1] => match re_of G MX n' r1 with Some (R1, _) => Some (Cat R1 (Cat (Star R1) K)) | None => None end
-        | HSeq, rs => match rs with _ :: _ :: _ => match lastopt rs with Some rl => nfol2 n' rl K | None => None end | _ => None end
+        | HSeq, rs => match rs with _ :: _ :: _ => match lastopt rs with Some rl => nfol2 n' rl (Cat Eps K) | None => None end | _ => None end
         | _, _ => None
         end
       end
@@ -183,10 +183,8 @@ Fixpoint nr_seq (subnr : rid -> re -> bool) (pur : rid -> bool) (subre : rid -> 
        end)
   end.
 
-Fixpoint cc2 (n : nat) (r : rid) (K : re) {struct n} : bool :=
-  match n with
-  | O => false
-  | S n' =>
+(* one level of the two checks, over the checks of the level below (subc, subn) *)
+Definition cc2_step (subc subn : rid -> re -> bool) (n' : nat) (r : rid) (K : re) : bool :=
     (old_frag (S n') r && is_none (nfol2 (S n') r K) && cc G MX (S n') r K) ||
     match nth_error G r with
     | None => false
@@ -195,47 +193,44 @@ Fixpoint cc2 (n : nat) (r : rid) (K : re) {struct n} : bool :=
       | Some _ => false
       | None =>
         match nhead nd, nsubs nd with
-        | HSeq, rs => cc2_seq (cc2 n') (re_of G MX n') rs K
-        | HSor, rs => cc2_sor (cc2 n') (nr n') (re_of G MX n') (nfol2 n') rs K
+        | HSeq, rs => cc2_seq subc (re_of G MX n') rs K
+        | HSor, rs => cc2_sor subc subn (re_of G MX n') (nfol2 n') rs K
         | HPartial, [r1] =>
             match re_of G MX n' r1 with
-            | Some (R, _) => cc2 n' r1 K && nr n' r1 K && quot_auto CF R K (Kx2 (nfol2 n' r1 K) K)
+            | Some (R, _) => subc r1 K && subn r1 K && quot_auto CF R K (Kx2 (nfol2 n' r1 K) K)
             | None => false
             end
         | HStarPartial, [r1] =>
             match re_of G MX n' r1 with
             | Some (R, _) => let L := Cat (Star R) K in
-                             negb (nullable R) && cc2 n' r1 L && nr n' r1 L && quot_auto CF R L (Kx2 (nfol2 n' r1 L) L)
+                             negb (nullable R) && subc r1 L && subn r1 L && quot_auto CF R L (Kx2 (nfol2 n' r1 L) L)
             | None => false
             end
         | HPlus, [r1] =>
             match re_of G MX n' r1 with
             | Some (R, _) => let L := Cat (Star R) K in
-                             negb (nullable R) && cc2 n' r1 L && nr n' r1 L && quot_auto CF R L (Kx2 (nfol2 n' r1 L) L)
+                             negb (nullable R) && subc r1 L && subn r1 L && quot_auto CF R L (Kx2 (nfol2 n' r1 L) L)
             | None => false
             end
         | HIfMust dflt, [cnd; m] =>
             match re_of G MX n' cnd, re_of G MX n' m with
             | Some (Rc, _), Some (Rm, true) =>
-                cc2 n' cnd (Cat Rm K) && cc2 n' m K &&
-                (if dflt then nr n' cnd K && quot_auto CF Rc K (Kx2 (nfol2 n' cnd (Cat Rm K)) (Cat Rm K)) else true)
+                subc cnd (Cat Rm K) && subc m K &&
+                (if dflt then subn cnd K && quot_auto CF Rc K (Kx2 (nfol2 n' cnd (Cat Rm K)) (Cat Rm K)) else true)
             | _, _ => false
             end
-        | HMust, [r1] => cc2 n' r1 K
+        | HMust, [r1] => subc r1 K
         | HNotAt, [r1] =>
             match re_of G MX n' r1 with
-            | Some (R1, _) => cc2 n' r1 Any && nr n' r1 K && quot_auto CF R1 K Empty
+            | Some (R1, _) => subc r1 Any && subn r1 K && quot_auto CF R1 K Empty
             | None => false
             end
         | _, _ => false
         end
       end
-    end
-  end
-with nr (n : nat) (r : rid) (L : re) {struct n} : bool :=
-  match n with
-  | O => false
-  | S n' =>
+    end.
+
+Definition nr_step (subc subn : rid -> re -> bool) (n' : nat) (r : rid) (L : re) : bool :=
     re_empty L || pure (S n') r ||
     match nth_error G r with
     | None => false
@@ -244,37 +239,47 @@ with nr (n : nat) (r : rid) (L : re) {struct n} : bool :=
       | Some _ => false
       | None =>
         match nhead nd, nsubs nd with
-        | HSeq, rs => nr_seq (nr n') (pure n') (re_of G MX n') rs L
-        | HSor, rs => forallb (fun r1 => nr n' r1 L) rs
-        | HPartial, [r1] => nr n' r1 L
-        | HAt, [r1] => nr n' r1 L
-        | HNotAt, [r1] => nr n' r1 L
+        | HSeq, rs => nr_seq subn (pure n') (re_of G MX n') rs L
+        | HSor, rs => forallb (fun r1 => subn r1 L) rs
+        | HPartial, [r1] => subn r1 L
+        | HAt, [r1] => subn r1 L
+        | HNotAt, [r1] => subn r1 L
         | HStarPartial, [r1] =>
             match re_of G MX n' r1 with
-            | Some (R, _) => negb (nullable R) && match lq CF (Star R) L with Some X => nr n' r1 X | None => false end
+            | Some (R, _) => negb (nullable R) && match lq CF (Star R) L with Some X => subn r1 X | None => false end
             | None => false
             end
         | HPlus, [r1] =>
             match re_of G MX n' r1 with
-            | Some (R, _) => negb (nullable R) && match lq CF (Star R) L with Some X => nr n' r1 X | None => false end
+            | Some (R, _) => negb (nullable R) && match lq CF (Star R) L with Some X => subn r1 X | None => false end
             | None => false
             end
         | HIfMust _, [cnd; m] =>
             match re_of G MX n' cnd with
-            | Some (Rc, _) => nr n' cnd L && match lq CF Rc L with Some Q => nr n' m Q | None => false end
+            | Some (Rc, _) => subn cnd L && match lq CF Rc L with Some Q => subn m Q | None => false end
             | None => false
             end
         | HMust, [r1] =>
             match re_of G MX n' r1 with
             | Some (R1, _) => match lq CF R1 L with
-                              | Some Q => incl_auto CF L (Cat R1 Q) && cc2 n' r1 Q
+                              | Some Q => incl_auto CF L (Cat R1 Q) && subc r1 Q
                               | None => false end
             | None => false
             end
         | _, _ => false
         end
       end
-    end
+    end.
+
+Fixpoint cc2 (n : nat) (r : rid) (K : re) {struct n} : bool :=
+  match n with
+  | O => false
+  | S n' => cc2_step (cc2 n') (nr n') n' r K
+  end
+with nr (n : nat) (r : rid) (L : re) {struct n} : bool :=
+  match n with
+  | O => false
+  | S n' => nr_step (cc2 n') (nr n') n' r L
   end.
 End Cert.
 
